@@ -783,6 +783,31 @@ func nameSets() []*Set {
 		wf.enum(enum("NoPackageEnum", "NP_ZERO", 0, "NP_ONE", 1))
 		sets = append(sets, simpleSet("names-odd-file-name", wf))
 	}
+	// two files of one request whose paths differ only in '/' versus '_' (ab_c.proto and ab/c.proto): the Go
+	// identifiers derived from the paths (File_..._ab_c_proto) coincide, the files and their Go packages do not
+	{
+		mk := func(name, gopkg, goname, pkg string) *fileB {
+			return &fileB{f: &descriptorpb.FileDescriptorProto{
+				Name: proto.String(name), Package: proto.String(pkg), Syntax: proto.String("proto3"),
+				Options: &descriptorpb.FileOptions{GoPackage: proto.String(goPkgPath(gopkg) + ";" + goname)},
+			}}
+		}
+		f1 := mk("zzgen/npath/ab_c.proto", "npath", "npath", "vf.names.pathu")
+		m1 := newMsg(".vf.names.pathu", "Under")
+		m1.add(field("v", 1, kindSpec{t: tString}))
+		m1.add(repeated(field("n", 2, kindSpec{t: tSint32})))
+		f1.msg(m1)
+		f1.enum(enum("UnderKind", "UNDER_ZERO", 0, "UNDER_ONE", 1))
+		f2 := mk("zzgen/npath/ab/c.proto", "npath/ab", "ab", "vf.names.paths")
+		f2.dep(f1.f.GetName())
+		m2 := newMsg(".vf.names.paths", "Slash")
+		m2.add(field("w", 1, kindSpec{t: tBytes}))
+		m2.add(field("under", 2, kindSpec{t: tMessage, name: ".vf.names.pathu.Under"}))
+		m2.addMap("by", 3, tString, kindSpec{t: tEnum, name: ".vf.names.pathu.UnderKind"})
+		f2.msg(m2)
+		f2.enum(enum("SlashKind", "SLASH_ZERO", 0, "SLASH_ONE", 1))
+		sets = append(sets, simpleSet("names-path-ident-collide", f1, f2))
+	}
 	return sets
 }
 
